@@ -28,6 +28,9 @@ def run(c, facts, tier):
     )
     c.decided = ["same text ⇒ equal parse results (any process)", "equal trees ⇒ byte-identical programs and equal tables, up to the embedded second", "embedded second is read during the compile call"]
     c.not_decided = ["monotonicity of the wall clock (assumption)"]
+    from .. import report as _rep
+
+    _rep.require(c, facts, "c10", "C15.hash-order", "destination table", "the indices used as keys of the destination table are pairwise distinct", lambda o: o["rule"] in ("C10.one-index",), "collecting the printer registry into the table forgets the iteration order only if no two printers have the same index: decided by C10.one-index (index = the counter value read before the bump)")
     m = mir.load(True)
     # ---------------------------------------------------------------- ambient
     clock_sites = []
